@@ -242,7 +242,11 @@ class _HamiltonianSystem(_DynamicalSystem):
             Compiled function implementing Hamilton's equations.
         """
 
-        jac_H, clmo_H, n_dof = self.jac_H, self.clmo_H, self.n_dof
+        # Numba cannot freeze typed Lists captured by a closure (lowering fails), so
+        # capture immutable tuples of the same arrays instead.
+        jac_H = tuple(tuple(np.ascontiguousarray(c) for c in var) for var in self.jac_H)
+        clmo_H = tuple(np.ascontiguousarray(c) for c in self.clmo_H)
+        n_dof = self.n_dof
 
         def _rhs_impl(t: float, state: np.ndarray) -> np.ndarray:
             # Autonomous: t is unused; required for interface consistency
